@@ -331,8 +331,8 @@ theorem C14_fn_apply_backward (s : Monitor.State) (c : Change) (A R : List GOp) 
 /-! ### State: on_add_block_end / on_remove_block_end -/
 
 /-- the per-block decode state as `on_*_block_end` reads it: the detected changes and the hash of the block -/
-def toGenDS (bh : Nat) (cs : List Change) : Gen.FnMonitorC14.BlockDecodeState Nat Nat :=
-  { changes := cs.map toGenChange, block_hash := some bh }
+def toGenDS (bh : Nat) (cs : List Change) (t : Monitor.State := default) : Gen.FnMonitorC14.BlockDecodeState Nat Nat :=
+  { changes := cs.map toGenChange, block_hash := some bh, state := toGen t }
 
 /-- the `for change in decode_state.changes.drain(..)` loop = `Monitor.applyAll` -/
 theorem foldlM_changes (g : Monitor.State → Change → Option Delta)
@@ -384,15 +384,15 @@ theorem is_done_ok (g : GState) (h : g.height + 1 ≤ Rs.U32_MAX) : ∃ b, g.is_
   · exact ⟨_, rfl⟩
 
 /-- result of a block-end function: new state, the drained decode state, the pair `(adds, removes)` -/
-def outE (bh : Nat) (d : Delta) :
+def outE (bh : Nat) (t : Monitor.State) (d : Delta) :
     GState × Gen.FnMonitorC14.BlockDecodeState Nat Nat × (List GOp × List GOp) :=
-  (toGen d.1, toGenDS bh [], (d.2.1.map toGenOp, d.2.2.map toGenOp))
+  (toGen d.1, toGenDS bh [] t, (d.2.1.map toGenOp, d.2.2.map toGenOp))
 
 /-- **`State::on_add_block_end` = `Monitor.addEnd`** for heights below `u32::MAX - 1` (the code does `height += 1`
     and evaluates `height + 1` again inside `is_done`; the model has no `u32` overflow) -/
-theorem C14_fn_on_add_block_end (s : Monitor.State) (cs : List Change) (bh : Nat)
+theorem C14_fn_on_add_block_end (s t : Monitor.State) (cs : List Change) (bh : Nat)
     (hh : s.height + 2 ≤ Rs.U32_MAX) :
-    (toGen s).on_add_block_end bh (toGenDS bh cs) = ofOpt (outE bh) (addEnd s cs) := by
+    (toGen s).on_add_block_end bh (toGenDS bh cs t) = ofOpt (outE bh t) (addEnd s cs) := by
   unfold Gen.FnMonitorC14.State.on_add_block_end addEnd
   have h1 : s.height + 1 ≤ Rs.U32_MAX := by omega
   simp only [toGenDS, beq_self_eq_true, Rs.assert, if_true, Rs.pure_eq, Rs.bind_ok]
@@ -444,8 +444,8 @@ theorem C14_fn_on_add_block_end (s : Monitor.State) (cs : List Change) (bh : Nat
 
 /-- **`State::on_remove_block_end` = `Monitor.removeEnd`** (backward changes in reverse order, swept heights cleared,
     `height -= 1`) for a monitor above height 0 -/
-theorem C14_fn_on_remove_block_end (s : Monitor.State) (cs : List Change) (bh : Nat) (hp : 0 < s.height) :
-    (toGen s).on_remove_block_end bh (toGenDS bh cs) = ofOpt (outE bh) (removeEnd s cs) := by
+theorem C14_fn_on_remove_block_end (s t : Monitor.State) (cs : List Change) (bh : Nat) (hp : 0 < s.height) :
+    (toGen s).on_remove_block_end bh (toGenDS bh cs t) = ofOpt (outE bh t) (removeEnd s cs) := by
   unfold Gen.FnMonitorC14.State.on_remove_block_end removeEnd
   simp only [toGenDS, beq_self_eq_true, Rs.assert, if_true, Rs.pure_eq, Rs.bind_ok]
   simp only [C14_fn_is_closing_swept, C14_fn_is_our_output_swept, ← List.map_reverse]
@@ -505,6 +505,20 @@ theorem C14_fn_on_remove_block_end_height0 (s : Monitor.State) (cs : List Change
         else (if b1 = true then { s2 with closingSweptHeight := none } else s2)).height = 0 := by
       intro b1 b2; split <;> split <;> simp [hht, hz]
     rw [if_pos (this _ _)]
+
+/-- **`BlockDecodeState::add_change` = `Scratch.addChange`**: the change is appended to the block's change list and
+    applied at once to the temporary copy of the state (so that a close and its sweep in one block are seen); an
+    inapplicable change panics -/
+theorem C14_fn_add_change (d : Scratch) (bh : Nat) (c : Change) :
+    (toGenDS bh d.changes d.t).add_change (toGenChange c)
+      = ofOpt (fun d' : Scratch => toGenDS bh d'.changes d'.t) (d.addChange c) := by
+  unfold Gen.FnMonitorC14.BlockDecodeState.add_change Scratch.addChange
+  simp only [toGenDS, C14_fn_apply_forward]
+  cases h : applyForward d.t c with
+  | none => rfl
+  | some r =>
+    obtain ⟨t', a, rr⟩ := r
+    simp [outD, toGenDS]
 
 /-! ### The views: `ChainMonitor::{funding_depth, funding_double_spent_depth, closing_depth}`, `ChainMonitorBase::as_chain_state`
 
